@@ -126,6 +126,18 @@ int main()
             std::size_t used = ompl::RNG::verifTapeUsed(); ompl::RNG::verifSetTape(nullptr, 0);
             std::printf("sample"); pstate(sp, r); std::printf(" | %d %zu\n", sp->satisfiesBounds(r) ? 1 : 0, used);
         }
+        else if (op == "RNG")
+        {   // RNG <kind 0 uniformReal | 1 uniformInt | 2 halfNormalReal | 3 halfNormalInt | 4 gaussian> a b c v : one call on the variate v
+            int kind; in >> kind; double a3[4]; for (auto &v : a3) { std::string t; in >> t; v = std::strtod(t.c_str(), nullptr); }
+            ompl::RNG rng; double tape1[1] = {a3[3]}; ompl::RNG::verifSetTape(tape1, 1); double out = 0;
+            if (kind == 0) out = rng.uniformReal(a3[0], a3[1]);
+            else if (kind == 1) out = (double)rng.uniformInt((int)a3[0], (int)a3[1]);
+            else if (kind == 2) out = rng.halfNormalReal(a3[0], a3[1], a3[2]);
+            else if (kind == 3) out = (double)rng.halfNormalInt((int)a3[0], (int)a3[1], a3[2]);
+            else out = rng.gaussian(a3[0], a3[1]);
+            ompl::RNG::verifSetTape(nullptr, 0);
+            std::printf("rng"); pbits(out); std::printf("\n");
+        }
         sp->freeState(a); sp->freeState(b); sp->freeState(r);
         std::fflush(stdout);
     }
